@@ -13,7 +13,7 @@ var siteFuncs = map[string][]string{
 		"Scheme.runDKG", "Scheme.prepareSigning", "rbcEncoding.Ack", "rbcEncoding.Payload", "rbcMsg.Ack", "rbcFilter.Receive", "threadSafeRBC.Receive", "threadSafeSync.HandleMessage", "prefix"},
 	"rbc/rbc.go":          {"Receiver.Receive", "Receiver.registerMsg", "Receiver.initIfNeeded", "prefix"},
 	"disc/discovery.go":   {"Member.HandleMessage", "Member.handleResponse", "Member.handleMembershipMessage", "Member.respondToQuery", "decodeTagAndMembershipList", "Member.myMemberViewSorted", "Member.computeMyTag"},
-	"msg/msgbox.go":       {"Box.HandleMessage", "Box.storeOrForward", "Box.getOrCreateMessagesByTopic", "Box.markTopicForSender", "Box.hasStartedSending", "storedMessages.add", "topicPrefix"},
+	"msg/msgbox.go":       {"Box.HandleMessage", "Box.storeOrForward", "Box.getOrCreateMessagesByTopic", "Box.markTopicForSender", "storedMessages.add", "topicPrefix"},
 	"mpc/bls/mpc.go":      {"TBLS.ClassifyMsg", "TBLS.OnMsg"},
 	"mpc/bls/verifier.go": {"Verifier.Init", "Verifier.Verify"},
 	"mpc/ps/tps.go":       {"TPS.ClassifyMsg", "TPS.OnMsg", "TPS.Sign", "unmarshalPK", "unmarshalShare"},
